@@ -198,8 +198,9 @@ def make_gen(idx, prog, acl_text):
     return g
 
 
-def run_real(gens_spec):
-    """gens_spec: [(prog, acl_text)] -> ("ok", tree) | ("generator-error", msg) | ("not-exclusive", msg) | ("other", repr)"""
+def run_real(gens_spec, annotate=False):
+    """gens_spec: [(prog, acl_text)] -> ("ok", tree) | ("generator-error", msg) | ("not-exclusive", msg) | ("other", repr);
+    annotate: as `annet gen --annotate` runs the generators (rows carry 'module:line' notes, stripped before comparing)"""
     from annet import gen as ann_gen
     from annet.generators import GeneratorError
     from annet.annlib.patching import AclNotExclusiveError
@@ -211,7 +212,7 @@ def run_real(gens_spec):
     dg = ann_gen.DeviceGenerators(partial={dev: gens}, ref={dev: []})
     ctx = ann_gen.OldNewDeviceContext(
         config="empty", args=args, downloaded_files={}, failed_files={}, running={}, failed_running={}, no_new=False,
-        stdin=None, add_annotations=False, add_implicit=False, do_files_download=False, gens=dg, fetched_packages={},
+        stdin=None, add_annotations=bool(annotate), add_implicit=False, do_files_download=False, gens=dg, fetched_packages={},
         failed_packages={}, device_count=1, do_print_perf=False)
     try:
         r = ann_gen._old_new_per_device(ctx, dev, None)
@@ -224,6 +225,21 @@ def run_real(gens_spec):
         return ("other", "%s: %s" % (type(e).__name__, e))
     if r.err:
         return ("other", "err=%r" % (r.err,))
+    if annotate:
+        from annet.annlib.lib import strip_annotation
+
+        def strip(t):
+            # the same row yielded by two generators carries two different notes: without the notes it is one row
+            out, idx = [], {}
+            for row, ch in t:
+                row = strip_annotation(row)
+                if row in idx:
+                    out[idx[row]][1] = strip([[r2, c2] for r2, c2 in out[idx[row]][1]] + ch)
+                else:
+                    idx[row] = len(out)
+                    out.append([row, strip(ch)])
+            return out
+        return ("ok", strip(env.tree_to_list(r.new)))
     return ("ok", env.tree_to_list(r.new))
 
 
@@ -283,6 +299,11 @@ def judge(specs, report):
         report({"kind": "config-differs", "n_gens": len(specs)}, case, "real=%r reference=%r" % (real[1], ref[1]))
     elif real[0] == "generator-error" and ref[1][-1] not in real[1]:
         report({"kind": "error-names-wrong-row"}, case, "real=%r reference uncovered=%r" % (real, ref[1]))
+    # the same run as `annet gen --annotate` makes it: the notes aside, nothing may change
+    if len(specs) <= 2:
+        noted = run_real([(p, indent_text(refacl.text(r), BASE_INDENT.get(a, 8)) + "\n") for (p, r), (_, a) in zip(rs, specs)], annotate=True)
+        if noted[0] != real[0] or (real[0] == "ok" and noted[1] != real[1]):
+            report({"kind": "annotate-changes-result", "n_gens": len(specs)}, case, "plain=%r with --annotate=%r" % (real, noted))
     return real, ref
 
 
